@@ -19,6 +19,16 @@ def no_null(x):
     return x
 
 
+def _small(call):
+    """the replay description of a call; very large ones are not duplicated into the record"""
+    try:
+        if len(json.dumps(call)) > 20000:
+            return {"big": True}
+    except Exception:  # noqa: BLE001
+        pass
+    return call
+
+
 def main():
     driver_name, out_prefix, si, sn, shard_size, params = sys.argv[1:7]
     si, sn, shard_size = int(si), int(sn), int(shard_size)
@@ -47,7 +57,7 @@ def main():
         for rec in recs:
             if rec is None:
                 continue
-            rec["call"] = no_null(call)
+            rec["call"] = _small(no_null(call))
             n += 1
             # ids are unique across drivers, back ends and slices
             rec["id"] = f"{tag}.{si}.{n}"
